@@ -5,6 +5,8 @@ mod util;
 
 #[cfg(feature = "rq-std")]
 mod c16;
+#[cfg(feature = "rq-std")]
+mod c17seq;
 mod c02;
 mod c03;
 mod c07;
@@ -45,6 +47,8 @@ fn main() {
                 "matrix" => c16::replay(&ctx, &doc),
                 "net" => netcheck::replay(&ctx, &doc),
                 "block" => c02::replay(&ctx, &doc),
+                #[cfg(feature = "rq-std")]
+                "cacheseq" => c17seq::replay(&ctx, &doc),
                 "xbuild" => c07::replay(&ctx, &doc),
                 "trial" => c03::replay(&ctx, &doc),
                 e => {
@@ -74,6 +78,12 @@ fn main() {
             match prop {
                 #[cfg(feature = "rq-std")]
                 "C16" => c16::run(&ctx),
+                #[cfg(feature = "rq-std")]
+                "C17SEQ" => {
+                    let mut c = ctx.clone();
+                    c.property = "C17".into();
+                    c17seq::run(&c)
+                }
                 "C02" => c02::run(&ctx),
                 "C07" => c07::run(&ctx),
                 "C03" => c03::run(&ctx),
